@@ -26,6 +26,19 @@ ASSUMPTIONS = ['layout model fjverif/asmref.py written from the property stateme
 
 def small_expr(d, target, labels, consts, w, allow_dollar_value=None):
     """an expression AST that evaluates to `target` (0 <= target), built from labels / consts / literals / $"""
+    e = _small_expr(d, target, labels, consts, w, allow_dollar_value)
+    r = d.pct()
+    if r < 5:
+        # exact integer division far above 2^53: (e * K + (K - 1)) / K == e for every e >= 0
+        K = d.choice([(1 << 55) + 3, (1 << 61) - 1, (1 << 70) + 9])
+        return ['b', '/', ['b', '+', ['b', '*', e, ['n', K, 'hex']], ['n', K - 1, 'hex']], ['n', K, 'hex']]
+    if r < 8:
+        # floor division of a negative dividend: (0 - 7) / 2 == -4
+        return ['b', '+', ['b', '+', ['b', '/', ['b', '-', ['n', 0, 'dec'], ['n', 7, 'dec']], ['n', 2, 'dec']], ['n', 4, 'dec']], e]
+    return e
+
+
+def _small_expr(d, target, labels, consts, w, allow_dollar_value=None):
     cands = [(n, v) for n, v in labels.items()] + [(n, v) for n, v in consts.items() if n != 'w']
     r = d.pct()
     if allow_dollar_value is not None and r < 20:
